@@ -84,7 +84,8 @@ def _mk_counts_classes():
             pass
 
         def get_weights(self):
-            return (self._w.copy(), {})
+            # like the real service: the stored array itself (in-place damage is then visible to the probes)
+            return (self._w, {})
 
     class StubGen(SignalGenerator):
         def __init__(self, log, key, **kw):
@@ -152,20 +153,32 @@ class CountsEnv:
                             default_sub_path_fmt='', version=1, cfg=self.cfg) for i in range(8)]
         self.datal = [DatasetData(data_exp=arr, data_mc=arr, livetime=1.) for _ in range(8)]
 
-    def run(self, ws, D, mean, random_state):
+    def make(self, ws, D):
         n = len(ws)
         log = []
         gens = [self.StubGen(log, i, shg_mgr=self.shg_mgr, cfg=self.cfg) for i in range(n)]
+        sw = self.StubW([a / D for a in ws])
         g = self.MDSG(shg_mgr=self.shg_mgr, dataset_list=self.dsl[:n], data_list=self.datal[:n],
-                      sig_generator_list=gens, ds_sig_weight_factors_service=self.StubW([a / D for a in ws]),
-                      cfg=self.cfg)
+                      sig_generator_list=gens, ds_sig_weight_factors_service=sw, cfg=self.cfg)
+        return g, log, sw
+
+    def call(self, g, log, mean, random_state):
+        del log[:]
         rss = self.RSS(1)
         rss.random = random_state
         try:
             (n_sig, d) = g.generate_signal_events(rss, mean, poisson=False)
-            return ['Ok', log, int(n_sig)]
+            return ['Ok', list(log), int(n_sig)]
         except Exception as ex:  # noqa: BLE001
             return ['Err', type(ex).__name__]
+
+    def run(self, ws, D, mean, random_state):
+        g, log, sw = self.make(ws, D)
+        w0 = sw._w.copy()
+        r = self.call(g, log, mean, random_state)
+        if not np.array_equal(sw._w, w0):
+            r = ['Err', 'dataset-weights-modified-in-place']
+        return r
 
 
 def fragile_half(ws, D, mean):
@@ -394,6 +407,21 @@ class McEnv:
             def __init__(self):
                 pass
         self.StubW = StubW
+
+        class _NoYield:
+            detsigyield_arr = np.empty((0, 0), dtype=object)
+
+            def calculate(self, src_params_recarray):
+                pass
+
+        class StubW2(DatasetSignalWeightFactorsService):
+            def __init__(self):
+                self._s = _NoYield()
+
+            @property
+            def src_detsigyield_weights_service(self):
+                return self._s
+        self.StubW2 = StubW2
         self.dsl = [Dataset(name=f'd{i}', exp_pathfilenames=None, mc_pathfilenames=None, livetime=1.,
                             default_sub_path_fmt='', version=1, cfg=self.cfg) for i in range(4)]
 
@@ -800,6 +828,361 @@ def compare_mc(ctx, case, impl_all, v):
         ctx.disagree(site + '.generate', case, impl, m)
 
 
+# =========================================================================== part C: history probes
+# "the result is a function of the current inputs only": the REAL objects are re-used, interleaved, mutated
+# and compared bit for bit with freshly built twins and with the independent brute-force oracles.
+class CountingRandom(np.random.RandomState):
+    """a real RandomState that gives up when a (mutated) redraw loop does not end"""
+
+    def __init__(self, seed, limit=40000):
+        super().__init__(seed)
+        self.n_calls = 0
+        self.limit = limit
+
+    def random(self, size=None):
+        self.n_calls += 1
+        if self.n_calls > self.limit:
+            raise RuntimeError('redraw loop did not terminate')
+        return super().random(size)
+
+
+def q_ranges(case, brute, reject):
+    """validity ranges on the exact field q that leave every (dataset, group) block a valid candidate"""
+    q_of = [[e['q'] for e in d['events']] for d in case['dss']]
+    ranges = []
+    for j in range(len(case['dss'])):
+        rd = {}
+        pc = [c for c in brute if c['ds'] == j and c['wn'] > 0]
+        qs = sorted(q_of[c['ds']][c['ev']] for c in pc)
+        if reject > 0 and qs:
+            cut = qs[min(len(qs) - 1, (len(qs) * (100 - reject)) // 100)]
+            for g_ in {c['shg'] for c in pc}:
+                cut = max(cut, min(q_of[c['ds']][c['ev']] for c in pc if c['shg'] == g_))
+            rd['q'] = (float(qs[0]), float(cut))
+        ranges.append(rd)
+    return ranges
+
+
+def snap_arrays(built):
+    """bytes of every MC column of every dataset and the scalars of every source"""
+    out = []
+    for dd in built['datal']:
+        mc = dd.mc
+        out.append(tuple((f, str(mc[f].dtype), mc[f].tobytes()) for f in sorted(mc.field_name_list)))
+    src = tuple((float(s.ra), float(s.dec), None if s.weight is None else float(s.weight))
+                for shg in built['shgs'] for s in shg.source_list)
+    return (tuple(out), src)
+
+
+def canon_events(d):
+    return tuple((int(k), tuple((f, str(d[k][f].dtype), d[k][f].tobytes()) for f in sorted(d[k].field_name_list)))
+                 for k in sorted(d.keys(), key=int))
+
+
+class McSetup:
+    """one buildable generator configuration: numeric case -> fresh real objects on demand"""
+
+    def __init__(self, env, case, reject):
+        self.env, self.case, self.reject = env, case, reject
+        b = build_mc(env, case)
+        self.ok = False
+        if b is None:
+            return
+        self.brute, mind = brute_candidates(b['num_dss'], b['num_shgs'])
+        if self.brute is None or mind < 1e-9 or not any(c['wn'] > 0 for c in self.brute):
+            return
+        self.ranges = q_ranges(case, self.brute, reject)
+        self.ok = True
+
+    def fresh(self, shgs_from=None):
+        """a generator on brand-new objects (data, sources, flux models, methods); returns (gen, built)"""
+        env = self.env
+        b = build_mc(env, self.case)
+        n_ds = len(self.case['dss'])
+        gen = env.MCMultiDatasetSignalGenerator(
+            cfg=env.cfg, shg_mgr=env.SourceHypoGroupManager(b['shgs']), dataset_list=env.dsl[:n_ds],
+            data_list=b['datal'], valid_event_field_ranges_dict_list=[dict(r) for r in self.ranges],
+            ds_sig_weight_factors_service=env.StubW2())
+        return gen, b
+
+
+def observe(env, gen, seed, means):
+    """consecutive calls on one RandomStateService; canonical, detached results + the live dicts"""
+    rss = env.RandomStateService(1)
+    rss.random = CountingRandom(seed)
+    res, live = [], []
+    for m in means:
+        try:
+            (n, d) = gen.generate_signal_events(rss, m, poisson=False)
+            res.append(('Ok', int(n), canon_events(d)))
+            live.append(d)
+        except Exception as ex:  # noqa: BLE001
+            res.append(('Err', type(ex).__name__))
+            live.append(None)
+    return res, live
+
+
+def check_table(ctx, st, gen, tag):
+    """candidate table of a (re-used / mutated) generator against the brute-force enumeration"""
+    tbl = gen._sig_candidates
+    keys = sorted((int(r['ds_idx']), int(r['ev_idx']), int(r['shg_idx']), int(r['shg_src_idx'])) for r in tbl)
+    bkeys = sorted((c['ds'], c['ev'], c['shg'], c['src']) for c in st.brute)
+    ok = keys == bkeys
+    if ok:
+        tot = sum(c['w'] for c in st.brute)
+        bw = {(c['ds'], c['ev'], c['shg'], c['src']): float(c['w'] / tot) for c in st.brute}
+        ok = all(abs(float(r['weight']) - bw[(int(r['ds_idx']), int(r['ev_idx']), int(r['shg_idx']), int(r['shg_src_idx']))])
+                 <= 1e-9 * (1 + float(r['weight'])) for r in tbl)
+    if not ok:
+        ctx.violation('MCMultiDatasetSignalGenerator._construct_signal_candidates', 'history:' + tag + ':wrong-candidates',
+                      'candidate table differs from the brute-force enumeration', case=dict(st.case, probe=tag),
+                      predicate='candidates = MC events in band and energy range, weight ~ mcweight*flux*srcw*livetime')
+    return ok
+
+
+def check_events(ctx, st, built, d, n_req, n_rep, tag):
+    """the property on one result of a re-used generator (independent of any twin)"""
+    site = 'MCMultiDatasetSignalGenerator.generate_signal_events'
+    case = dict(st.case, probe=tag)
+    total = sum(len(d[k]) for k in d)
+    if n_rep != n_req or total != n_req:
+        ctx.violation(site, 'history:' + tag + ':reported-n-differs', f'{n_rep} {n_req} {total}', case=case,
+                      predicate='reported n == requested n == number of events returned')
+    for k in d:
+        a = d[k]
+        k = int(k)
+        rd = st.ranges[k]
+        evs = st.case['dss'][k]['events']
+        for i in range(len(a)):
+            evid, q = int(a['evid'][i]), float(a['q'][i])
+            ra, dec = float(a['ra'][i]), float(a['dec'][i])
+            cands = [c for c in st.brute if c['ds'] == k and c['ev'] == evid and c['wn'] > 0] \
+                if 0 <= evid < len(evs) else []
+            if ('q' in rd and not rd['q'][0] <= q <= rd['q'][1]) or not cands or q != evs[evid]['q']:
+                ctx.violation(site, 'history:' + tag + ':bad-event', f'dataset {k} evid {evid} q {q} ranges {rd}',
+                              case=case, predicate='valid event of a positive-weight candidate of its dataset')
+                continue
+            e = evs[evid]
+            true_dec = math.asin(e['sdk'] / 2 ** 20)
+            reco_dec = min(1.55, max(-1.55, true_dec + e['ddec']))
+            psi0 = hav_sep(e['true_ra'], true_dec, e['ra'], reco_dec)
+            best = min(abs(hav_sep(float(built['shgs'][c['shg']].source_list[c['src']].ra),
+                                   float(built['shgs'][c['shg']].source_list[c['src']].dec), ra, dec) - psi0)
+                       for c in cands)
+            if best > 1e-7 or abs(float(a['sin_dec'][i]) - math.sin(dec)) > 1e-12:
+                ctx.violation('rotate_signal_events_on_sphere', 'history:' + tag + ':angular-offset-not-preserved',
+                              f'{best}', case=case, predicate='true-to-reconstructed angular offset kept')
+
+
+def probe_mc(ctx, env, rng, case_a, case_b, alt_shgs):
+    """history probes on MCMultiDatasetSignalGenerator for two configurations a, b (b has other datasets and
+    sources) and a second source set for the datasets of a"""
+    site = 'MCMultiDatasetSignalGenerator'
+    A = McSetup(env, case_a, rng.choice([0, 30, 60]))
+    B = McSetup(env, case_b, rng.choice([0, 30, 60]))
+    if not (A.ok and B.ok):
+        ctx.count('C:skipped-setup')
+        return
+    ctx.count('C:mc-probe-sets')
+    ctx.case({'part': 'C', 'a': case_a['aim_seed'], 'b': case_b['aim_seed']})
+    seeds = [rng.randrange(2 ** 31) for _ in range(3)]
+    m1, m2, m3 = rng.choice([3, 8, 21]), rng.choice([0, 1, 13, 50]), rng.choice([5, 34])
+
+    def twin(st, seed, means):
+        g, b = st.fresh()
+        return observe(env, g, seed, means)[0]
+
+    def differs(st, tag, got, want, extra=''):
+        if got != want:
+            ctx.violation(site + '.generate_signal_events', 'history:' + tag + ':differs-from-fresh-generator',
+                          'a re-used generator returns other events than a fresh one with the same inputs ' + extra,
+                          case=dict(st.case, probe=tag, seeds=seeds, means=[m1, m2, m3]),
+                          predicate='result depends on the current inputs only')
+            return True
+        return False
+
+    # -- construction is an operation: stored data / sources unchanged by it
+    bA = build_mc(env, case_a)
+    s0 = snap_arrays(bA)
+    nA = len(case_a['dss'])
+    gA = env.MCMultiDatasetSignalGenerator(
+        cfg=env.cfg, shg_mgr=env.SourceHypoGroupManager(bA['shgs']), dataset_list=env.dsl[:nA], data_list=bA['datal'],
+        valid_event_field_ranges_dict_list=[dict(r) for r in A.ranges], ds_sig_weight_factors_service=env.StubW2())
+    gB, bB = B.fresh()                  # second instance built BEFORE the first use of either
+    sB0 = snap_arrays(bB)
+
+    def data_intact(tag):
+        if snap_arrays(bA) != s0 or snap_arrays(bB) != sB0:
+            ctx.violation(site, 'history:' + tag + ':stored-data-modified',
+                          'MC arrays / sources of a dataset changed', case=dict(case_a, probe=tag),
+                          predicate='the MC data and the sources are inputs: bytewise unchanged')
+    data_intact('construction')
+    tblA0 = gA._sig_candidates.copy()
+    check_table(ctx, A, gA, 'construction')
+
+    # -- repeat / interleave / two instances / returned values owned by the caller
+    f1 = np.array(gA.mu2flux(1.5, per_source=True), copy=True)
+    f1_live = gA.mu2flux(1.5, per_source=True)
+    r1, live1 = observe(env, gA, seeds[0], [m1, m2])          # two calls on one rss
+    keep = [canon_events(d) if d is not None else None for d in live1]
+    rb1, _ = observe(env, gB, seeds[1], [m3])                  # the other instance in between
+    f2_live = gA.mu2flux(4.0, per_source=True)
+    t2 = float(gA.mu2flux(4.0))
+    r2, live2 = observe(env, gA, seeds[2], [m3])               # other arguments
+    r3, _ = observe(env, gA, seeds[0], [m1, m2])               # repeat of the first call pair
+    rb2, _ = observe(env, gB, seeds[1], [m3])
+    data_intact('calls')
+    differs(A, 'repeat', r3, r1, '(same generator, same inputs, repeated)')
+    differs(A, 'reuse', r1, twin(A, seeds[0], [m1, m2]))
+    differs(A, 'interleave', r2, twin(A, seeds[2], [m3]))
+    differs(B, 'two-instances', rb1, twin(B, seeds[1], [m3]))
+    differs(B, 'two-instances-repeat', rb2, rb1)
+    for res, live in ((r1, live1), (r2, live2)):
+        for r, d in zip(res, live):
+            if r[0] == 'Ok':
+                check_events(ctx, A, bA, d, {id(live1[0]): m1, id(live1[1]): m2, id(live2[0]): m3}[id(d)], r[1], 'reuse')
+            else:
+                ctx.violation(site + '.generate_signal_events', 'history:reuse:raises-' + r[1], 'raises', case=case_a)
+    # results handed out earlier are the caller's: untouched by later calls, no memory shared
+    for d, k0 in zip(live1, keep):
+        if d is not None and canon_events(d) != k0:
+            ctx.violation(site + '.generate_signal_events', 'history:returned-events-overwritten',
+                          'events returned by an earlier call changed during a later call', case=dict(case_a, probe='owned'),
+                          predicate='returned values are owned by the caller')
+    cols = [d[k][f] for d in live1 + live2 if d is not None for k in d for f in d[k].field_name_list]
+    mccols = [dd.mc[f] for dd in bA['datal'] for f in dd.mc.field_name_list]
+    if any(np.shares_memory(x, y) for i, x in enumerate(cols) for y in cols[i + 1:] if x.size and y.size) or \
+            any(np.shares_memory(x, y) for x in cols for y in mccols if x.size):
+        ctx.violation(site + '.generate_signal_events', 'history:returned-events-share-memory',
+                      'returned columns alias each other or the MC arrays', case=dict(case_a, probe='owned'),
+                      predicate='returned values are owned by the caller')
+    # mu2flux: kept results untouched, linear across calls, equal to a fresh generator
+    gF, _ = A.fresh()
+    fF1 = np.asarray(gF.mu2flux(1.5, per_source=True))
+    gF2, _ = A.fresh()
+    fF2 = np.asarray(gF2.mu2flux(4.0, per_source=True))
+    sc_ = float(np.sum(np.abs(fF2))) + 1e-300
+    if (not np.array_equal(f1_live, f1) or np.shares_memory(f1_live, f2_live) or not np.array_equal(f1, fF1)
+            or not np.array_equal(np.asarray(f2_live), fF2) or abs(t2 - float(np.sum(fF2))) > 1e-9 * sc_
+            or np.max(np.abs(np.asarray(f2_live) * 1.5 - f1 * 4.0)) > 1e-9 * sc_):
+        ctx.violation(site + '.mu2flux', 'history:mu2flux-result-not-retained',
+                      f'{f1.tolist()} {np.asarray(f1_live).tolist()} {np.asarray(f2_live).tolist()} {fF1.tolist()} {fF2.tolist()}',
+                      case=dict(case_a, probe='mu2flux'),
+                      predicate='mu2flux results are owned by the caller, depend on mu only, and are linear in mu')
+    if not np.array_equal(gA._sig_candidates, tblA0):
+        ctx.violation(site, 'history:candidate-table-modified-by-calls', 'the candidate table changed during calls',
+                      case=dict(case_a, probe='table'))
+    # -- mutate then observe: the validity ranges (observables were read before)
+    new_ranges = q_ranges(case_a, A.brute, 45 if A.reject != 30 else 0)
+    gA.valid_event_field_ranges_dict_list = [dict(r) for r in new_ranges]
+    A2 = McSetup(env, case_a, 0)
+    A2.ranges = new_ranges
+    r4, live4 = observe(env, gA, seeds[0], [m1])
+    differs(A2, 'set-ranges', r4, twin(A2, seeds[0], [m1]))
+    if r4[0][0] == 'Ok':
+        check_events(ctx, A2, bA, live4[0], m1, r4[0][1], 'set-ranges')
+    # -- mutate then observe: change_shg_mgr (other sources on the same datasets)
+    case_c = dict(case_a, shgs=alt_shgs)
+    C = McSetup(env, case_c, 0)
+    if not C.ok:
+        ctx.count('C:skipped-alt-sources')
+        return
+    C.ranges = new_ranges
+    bC = build_mc(env, case_c)
+    try:
+        gA.change_shg_mgr(env.SourceHypoGroupManager(bC['shgs']))
+    except Exception as ex:  # noqa: BLE001
+        ctx.violation(site + '.change_shg_mgr', 'history:change_shg_mgr:raises-' + type(ex).__name__, str(ex)[:200],
+                      case=dict(case_c, probe='change_shg_mgr'))
+        return
+    ctx.count('C:change_shg_mgr')
+    check_table(ctx, C, gA, 'change_shg_mgr')
+    r5, live5 = observe(env, gA, seeds[1], [m1, m3])
+    differs(C, 'change_shg_mgr', r5, twin(C, seeds[1], [m1, m3]))
+    bAC = dict(bA, shgs=bC['shgs'])
+    for r, d, m in zip(r5, live5, [m1, m3]):
+        if r[0] == 'Ok':
+            check_events(ctx, C, bAC, d, m, r[1], 'change_shg_mgr')
+    gFc, _ = C.fresh()
+    fc, ff = np.asarray(gA.mu2flux(2.0, per_source=True)), np.asarray(gFc.mu2flux(2.0, per_source=True))
+    if fc.shape != ff.shape or not np.array_equal(fc, ff):
+        ctx.violation(site + '.mu2flux', 'history:change_shg_mgr:mu2flux-stale', f'{fc.tolist()} vs {ff.tolist()}',
+                      case=dict(case_c, probe='change_shg_mgr'), predicate='mu2flux follows the current sources')
+    data_intact('change_shg_mgr')
+
+
+def probe_many_sources(ctx, env, rng):
+    """> 128 sources with the default batch size (a partially filled second batch) and batch sizes that do not
+    divide the number of sources: candidate table against the brute force"""
+    for n_src, batch in ((131, 128), (7, 3), (5, 4)):
+        case = gen_mc_case(rng, small=True)
+        case['dss'] = case['dss'][:1]
+        case['dss'][0]['lt'] = 2
+        h = case['shgs'][0]
+        h['batch'] = batch
+        h['srcs'] = [{'pos': rng.choice(['inside', 'inside', 'at-lower-edge', 'at-upper-edge']), 'u': rng.random(),
+                      'ra': rng.random() * 6.28, 'w': rng.choice([1, 2, 3])} for _ in range(n_src)]
+        case['shgs'] = [h]
+        st = McSetup(env, case, 0)
+        if not st.ok:
+            ctx.count('C:skipped-many-sources')
+            continue
+        ctx.count(f'C:sources:{n_src}/batch:{batch}')
+        ctx.case({'part': 'C', 'many': n_src, 'seed': case['aim_seed']})
+        g, b = st.fresh()
+        if check_table(ctx, st, g, f'batch-{batch}'):
+            r, live = observe(env, g, case['aim_seed'], [20])
+            if r[0][0] == 'Ok':
+                check_events(ctx, st, b, live[0], 20, r[0][1], f'batch-{batch}')
+
+
+def probe_counts(ctx, env, rng):
+    """one MultiDatasetSignalGenerator re-used for many totals / seeds against fresh ones; the weight array of
+    the service is an input"""
+    site = 'MultiDatasetSignalGenerator.generate_signal_events'
+    for _ in range(ctx.budget(6, 40)):
+        ws, D, kind = gen_weights(rng)
+        g, log, sw = env.make(ws, D)
+        g2, log2, sw2 = env.make(list(reversed(ws)), D)       # a second instance, built before first use
+        w0 = sw._w.copy()
+        calls = [(rng.randint(0, 50), rng.randrange(2 ** 31)) for _ in range(5)]
+        calls.append(calls[0])
+        ctx.case({'part': 'C', 'ws': ws, 'D': D, 'calls': calls})
+        ctx.count('C:counts-probe-sets')
+        for mean, seed in calls:
+            got = env.call(g, log, mean, np.random.RandomState(seed))
+            other = env.call(g2, log2, mean, np.random.RandomState(seed))
+            gf, logf, _ = env.make(ws, D)
+            want = env.call(gf, logf, mean, np.random.RandomState(seed))
+            gf2, logf2, _ = env.make(list(reversed(ws)), D)
+            want2 = env.call(gf2, logf2, mean, np.random.RandomState(seed))
+            case = {'part': 'A', 'ws': ws, 'D': D, 'mean': mean, 'seed': seed, 'probe': 'reuse', 'calls': calls}
+            if got != want or other != want2:
+                ctx.violation(site, 'history:reuse:differs-from-fresh-generator', f'{got} vs {want}; {other} vs {want2}',
+                              case=case, predicate='result depends on the current inputs only')
+            if not np.array_equal(sw._w, w0):
+                ctx.violation(site, 'history:dataset-weights-modified', 'the weight array of the service was changed in place',
+                              case=case, predicate='arguments / service data are inputs')
+                sw._w[:] = w0
+            check_counts_predicates(ctx, case, got)
+
+
+def run_probes(ctx):
+    import random as _random
+    rng = _random.Random(ctx.seed * 7919 + 18)
+    probe_counts(ctx, CountsEnv(), rng)
+    env = McEnv()
+    done = tries = 0
+    want = ctx.budget(5, 40)
+    while done < want and tries < 8 * want:
+        tries += 1
+        a, b, c = gen_mc_case(rng, small=True), gen_mc_case(rng, small=True), gen_mc_case(rng, small=True)
+        before = ctx.stats.get('C:mc-probe-sets', 0)
+        probe_mc(ctx, env, rng, a, b, c['shgs'])
+        done += ctx.stats.get('C:mc-probe-sets', 0) - before
+    probe_many_sources(ctx, env, rng)
+
+
 # =========================================================================== driver
 def evaluate(ctx, name, exprs, checks):
     if not exprs:
@@ -821,6 +1204,12 @@ def evaluate(ctx, name, exprs, checks):
 
 
 def run(ctx):
+    try:
+        run_probes(ctx)
+    except Exception as ex:  # noqa: BLE001   (a crashing probe must not look like a pass)
+        import traceback
+        traceback.print_exc()
+        ctx.broken.append({'kind': 'harness', 'error': f'history probes: {type(ex).__name__}: {ex}'})
     exprs, checks = [], []
     run_counts(ctx, CountsEnv(), exprs, checks)
     evaluate(ctx, 'c18a', exprs, checks)
